@@ -430,7 +430,7 @@ class Pipeline_real(Contract):
                                    'native.neo4j_label_markup_on_every_node_and_edge', 'native.bystander_graph_untouched',
                                    'native.codec_model_assumption_graphml', 'native.codec_model_assumption_json',
                                    'native.markup_model_assumption', 'native.mixed_graph_ids_rejected',
-                                   'native.library_models_roundtrip_and_validate')}
+                                   'native.library_models_roundtrip_and_validate', 'native.file_saved_again_holds_the_last_model')}
         count = dict(raw_graphs=0, roundtrips=0, library_models=0)
         tmp = tempfile.mkdtemp(prefix='c01n-')
 
@@ -539,6 +539,28 @@ class Pipeline_real(Contract):
             except PropertyGraphImportException:
                 pass
             # models held by the library
+            # Topology.serialize(file_name=...) over an existing, longer file: the file holds the model saved last
+            import fim.user as fu
+            try:
+                NetworkXGraphImporter().delete_all_graphs()
+                t = fu.ExperimentTopology()
+                for nm in ('n1', 'n2', 'n3'):
+                    n = t.add_node(name=nm, site='RENC', capacities=fu.Capacities(core=2, ram=8, disk=10))
+                    n.add_component(name='nic', model_type=fu.ComponentModelType.SharedNIC_ConnectX_6)
+                p = os.path.join(tmp, 'slice.graphml')
+                t.serialize(file_name=p)
+                t.remove_node('n3')
+                t.remove_node('n2')
+                for fmt in (GraphFormat.GRAPHML, GraphFormat.JSON_NODELINK):
+                    t.serialize(file_name=p, fmt=fmt)
+                    want = canon(t.graph_model.storage.extract_graph(t.graph_model.graph_id), t.graph_model.graph_id)
+                    t2 = fu.ExperimentTopology()
+                    t2.load(file_name=p)
+                    got = canon(t2.graph_model.storage.extract_graph(t2.graph_model.graph_id), t2.graph_model.graph_id)
+                    if not (typed_equal(want[0], got[0]) and typed_equal(want[1], got[1])):
+                        fail('native.file_saved_again_holds_the_last_model', dict(format=fmt.name, nodes_saved=len(want[0]), nodes_loaded=len(got[0])))
+            except Exception as e:   # noqa
+                fail('native.file_saved_again_holds_the_last_model', dict(raised=f'{type(e).__name__}: {str(e)[:200]}'))
             models = []
             for desc, pg in library_models():
                 # (the shared store is a process-wide singleton: take the content out before the round trips reset it)
